@@ -419,8 +419,11 @@ def targets(ctx):
         return case
 
     strat = st.tuples(schema_ast(max_packages=2), st.lists(st.integers(0, 2**20), min_size=3, max_size=3)).map(lambda t: {"ast": t[0], "vseeds": t[1]})
+    from . import _wkt
+
     return [
         Target("corpus_values_x_options", corpus_variant_ev, strategy=corpus_variant_strat(), quick=300, thorough=5000, time_quick=80),
         Target("all_cardinalities_service_x_options", fixed_ev, cases=fixed_cases, exhaustive=True, shard_cases=False),
         Target("grammar_schemas_x_options", grammar_ev, strategy=strat, quick=2, thorough=30, time_quick=150, time_thorough=1500, pin_budget=8, pin_sigs=1),
+        _wkt.target("C18"),
     ]
